@@ -64,6 +64,8 @@ class Machine:
         self.trace = None
         self.unknown_feas = 0
         self.axioms = []
+        self.div_mode = "quot"
+        self.div_guards = []
 
     # ------------------------------------------------------------ solver interface
     def fresh_real(self, name="r"):
@@ -170,7 +172,7 @@ class Machine:
         model = self.solver.model() if r == z3.sat else None
         self.solver.pop()
         self.solver.set("timeout", 5000)
-        return {z3.unsat: "holds", z3.sat: "fails"}.get(r, "unknown"), model
+        return ("holds" if r == z3.unsat else "fails" if r == z3.sat else "unknown"), model
 
     # ------------------------------------------------------------ memory
     def load(self, cell, path):
